@@ -30,6 +30,8 @@ func runC17(c *Ctx) {
 	c17WriteRetention(c)
 	readLineRules(c, "C17")
 	pooledEscapeRules(c, "C17")
+	// only pooled objects may be put into a pool: a caller's buffer must never end up there
+	c19Pools(c)
 }
 
 func c17UnsafeViews(c *Ctx) {
